@@ -91,12 +91,22 @@ package f64
 //@ reads x[k*int(incX)] for k in 0..int(n)
 //@ ensures disjoint(dst, x) && int(incDst) != 0 ==> forall(k, 0, int(n), same(dst[k*int(incDst)], alpha * old(x[k*int(incX)])))
 
+// asum: the defining sum of absolute values of the n elements x[0], x[incX], ..., x[(n-1)*incX]
+// (exact arithmetic, [real] clauses).
+//@ spec rec asum(x []float64, n int, incX int) float64 decreases n =
+//@      ite(n <= 0, 0, asum(x, n-1, incX) + abs(x[(n-1)*incX]))
+
 //@ func L1Norm props: C07(safety) C08
 //@ writes nothing
+//@ ensures [real] sum == asum(x, len(x), 1)
+//@ loop 1: invariant [real] sum == asum(x, it, 1)
 
 //@ func L1NormInc props: C07(safety) C08
 //@ requires n >= 0 && incX >= 1 && strided(x, 0, n, incX)
 //@ writes nothing
+//@ ensures [real] sum == asum(x, n, incX)
+//@ loop 1: invariant [real] sum == asum(x, it, incX)
+//@ invariant [real] i == it*incX
 
 //@ func Add props: C07(safety) C08
 //@ requires len(dst) >= len(s)
@@ -174,6 +184,22 @@ package f64
 //@ requires n == 0 || len(y) > (int(n)-1)*abs(int(incY))
 //@ writes a[i*int(lda)+j] for i in 0..int(m), j in 0..int(n)
 //@ reads x[ite(int(incX) < 0, -(int(m)-1)*int(incX), 0)+i*int(incX)] for i in 0..int(m) ; y[ite(int(incY) < 0, -(int(n)-1)*int(incY), 0)+j*int(incY)] for j in 0..int(n)
+// every element of the m×n block gets alpha*x[i]*y[j] added, exactly (no summation), in the association
+// (alpha*x[i])*y[j] of the row-wise axpy; operands in distinct allocations
+//@ let gkx = ite(int(incX) < 0, -(int(m)-1)*int(incX), 0)
+//@ let gky = ite(int(incY) < 0, -(int(n)-1)*int(incY), 0)
+//@ ensures a.rid != x.rid && a.rid != y.rid ==> (forall(i, 0, int(m), forall(j, 0, int(n), same(a[i*int(lda)+j], old(a[i*int(lda)+j]) + (alpha*old(x[gkx+i*int(incX)]))*old(y[gky+j*int(incY)])))))
+// (the quantifier is parenthesised so that no candidate invariants are derived from the clause; they are stated here)
+//@ loop 1: invariant forall(r, 0, it, forall(c, 0, int(n), a.rid != x.rid && a.rid != y.rid ==> same(a[r*int(lda)+c], old(a[r*int(lda)+c]) + (alpha*old(x[gkx+r*int(incX)]))*old(y[gky+c*int(incY)]))))
+//@ invariant forall(r, it, int(m), forall(c, 0, int(n), a.rid != x.rid && a.rid != y.rid ==> same(a[r*int(lda)+c], old(a[r*int(lda)+c]))))
+//@ invariant forall(k, 0, int(m), a.rid != x.rid && a.rid != y.rid ==> same(x[gkx+k*int(incX)], old(x[gkx+k*int(incX)])))
+//@ invariant forall(k, 0, int(n), a.rid != x.rid && a.rid != y.rid ==> same(y[gky+k*int(incY)], old(y[gky+k*int(incY)])))
+//@ loop 2: invariant int(ix) == gkx + i*int(incX)
+//@ invariant int(ky) == gky
+//@ invariant forall(r, 0, i, forall(c, 0, int(n), a.rid != x.rid && a.rid != y.rid ==> same(a[r*int(lda)+c], old(a[r*int(lda)+c]) + (alpha*old(x[gkx+r*int(incX)]))*old(y[gky+c*int(incY)]))))
+//@ invariant forall(r, i, int(m), forall(c, 0, int(n), a.rid != x.rid && a.rid != y.rid ==> same(a[r*int(lda)+c], old(a[r*int(lda)+c]))))
+//@ invariant forall(k, 0, int(m), a.rid != x.rid && a.rid != y.rid ==> same(x[gkx+k*int(incX)], old(x[gkx+k*int(incX)])))
+//@ invariant forall(k, 0, int(n), a.rid != x.rid && a.rid != y.rid ==> same(y[gky+k*int(incY)], old(y[gky+k*int(incY)])))
 
 //@ func GemvN props: C01(frame) C07(safety) C08
 //@ requires int(m) >= 0 && int(n) >= 0 && int(lda) >= int(n) && int(lda) >= 1
@@ -190,6 +216,11 @@ package f64
 //@ ensures [realx] y.rid != x.rid && y.rid != a.rid ==> forall(i, 0, int(m), y[ky+i*int(incY)] == old(y[ky+i*int(incY)])*beta + alpha*dotp(x, a[i*int(lda):i*int(lda)+int(n)], int(n), kx, int(incX), 0, 1))
 //@ reads a[i*int(lda)+j] for i in 0..int(m), j in 0..int(n) ; x[ite(int(incX) < 0, -(int(n)-1)*int(incX), 0)+j*int(incX)] for j in 0..int(n)
 
+// colsum: sum over the first m rows of (alpha*x[kx+i*incX]) * a[i*lda+j], column j of the row-major matrix a,
+// accumulated row by row (exact arithmetic, [real] clauses).
+//@ spec rec colsum(a []float64, x []float64, alpha float64, m int, j int, lda int, kx int, incX int) float64 decreases m =
+//@      ite(m <= 0, 0, colsum(a, x, alpha, m-1, j, lda, kx, incX) + (alpha*x[kx+(m-1)*incX])*a[(m-1)*lda+j])
+
 //@ func GemvT props: C01(frame) C07(safety) C08
 //@ requires int(m) >= 0 && int(n) >= 0 && int(lda) >= int(n) && int(lda) >= 1
 //@ requires m == 0 || len(a) >= int(lda)*(int(m)-1)+int(n)
@@ -200,3 +231,10 @@ package f64
 //@ let kx = ite(int(incX) < 0, -(int(m)-1)*int(incX), 0)
 //@ writes y[ky+k*int(incY)] for k in 0..int(n)
 //@ reads a[i*int(lda)+j] for i in 0..int(m), j in 0..int(n) ; x[ite(int(incX) < 0, -(int(m)-1)*int(incX), 0)+i*int(incX)] for i in 0..int(m)
+// in exact arithmetic y[j] = beta*y[j] + sum over the rows i of (alpha*x[i])*a[i][j], the sum in the order and
+// association of the row-wise axpy updates (colsum below; alpha times the column dot product in exact
+// arithmetic). Decided for unit increments.
+//@ ensures [real] incX == 1 && incY == 1 && y.rid != x.rid && y.rid != a.rid ==> (forall(j, 0, int(n), y[j] == old(y[j])*beta + colsum(a, x, alpha, int(m), j, int(lda), 0, 1)))
+//@ loop 1: invariant [real] forall(j, 0, it, y.rid != x.rid && y.rid != a.rid ==> y[j] == 0)
+//@ invariant [real] forall(j, it, int(n), y.rid != x.rid && y.rid != a.rid ==> y[j] == old(y[j]))
+//@ loop 3: invariant [real] forall(j, 0, int(n), y.rid != x.rid && y.rid != a.rid ==> y[j] == old(y[j])*beta + colsum(a, x, alpha, int(i), j, int(lda), 0, 1))
